@@ -2,6 +2,9 @@ import XcpProofs.FsDefs
 import XcpProofs.FsFrame
 import XcpProofs.TreeFrame
 import XcpProofs.AnyRunFrame
+import XcpProofs.AnyRunFrameMore
+import XcpProofs.EndToEndClash
+import XcpProofs.ClashLinks
 import XcpProofs.ClashExample
 /-! # C03 — sources and bystander files are never modified, even by self-copies or kills
 
@@ -218,5 +221,83 @@ example (q : List Name) (hq : ¬ ClashExample.tb.names <+: q) :
     ClashExample.instance_meets_hypotheses
   exact ⟨any_sequential_run_changes_only_the_target _ _ hd hn _ _ _ _ hwf hroot hsrc hsn hcop htb hne
     (fun d h => by rw [hdst] at h; cases h; exact hpl) hpar hun1 hun2 hlen q hq, ClashExample.instance_fails⟩
+
+/-- … with `--dereference` as well: the operations read from wherever the links lead, but in every reachable state — failed
+or not — every place not at or below the target is observed as initially; in particular every place a link of the source
+leads to, anywhere in the namespace (no `ReadsAway` needed: the frame is about what is WRITTEN) -/
+theorem every_reachable_state_with_dereference_changes_only_the_target (fs : Fs) (c : Cfg) (hd : c.dereference = true)
+    (hn : c.noClobber = false)
+    (src tb : RPath) (s : SNode) (fuel : Nat)
+    (hwf : FsEq fs fs)
+    (hsrc : AbsNames src)
+    (hder : derefS fs (fuel + 1) src.names [] = some s)
+    (htb : PlainTarget fs tb) (hne : tb.names ≠ [])
+    (hplain : ∀ d, fs.root.getAt tb.names = some d → d.plainTree = true)
+    (hpar : ∃ es, fs.root.getAt tb.names.dropLast = some (.dir es))
+    (hlen : tb.names.length + fuel < 255)
+    (ls : List L0.Label) (st : L0.St)
+    (hrun : L0.run c (L0.init fs (walkEntry fs c none src tb (fuel + 1) [] [])) ls = some st) :
+    ∀ q, ¬ tb.names <+: q → obsAt st.fs.root q = obsAt fs.root q :=
+  any_deref_run_changes_only_the_target fs c hd hn src tb s fuel hwf hsrc hder htb hne hplain hpar hlen ls st hrun
+
+/-- … and with `--gitignore` patterns in force -/
+theorem every_reachable_state_with_gitignore_changes_only_the_target (fs : Fs) (c : Cfg) (hd : c.dereference = false)
+    (hn : c.noClobber = false) (ps : List Gi.Pattern)
+    (src tb : RPath) (srcNode : Node) (fuel : Nat)
+    (hwf : FsEq fs fs) (hroot : fs.root.isDir = true)
+    (hsrc : PlainTarget fs src) (hsn : fs.root.getAt src.names = some srcNode)
+    (hcop : srcNode.Copyable fuel)
+    (htb : PlainTarget fs tb) (hne : tb.names ≠ [])
+    (hplain : ∀ d, fs.root.getAt tb.names = some d → d.plainTree = true)
+    (hpar : ∃ es, fs.root.getAt tb.names.dropLast = some (.dir es))
+    (hun1 : ¬ src.names <+: tb.names) (hun2 : ¬ tb.names <+: src.names)
+    (hlen : src.names.length + fuel < 200 ∧ tb.names.length + fuel < 200)
+    (ls : List L0.Label) (s : L0.St)
+    (hrun : L0.run c (L0.init fs (walkEntry fs c (some ps) src tb (fuel + 1) [] [])) ls = some s)
+    (q : List Name) (hq : ¬ tb.names <+: q) :
+    obsAt s.fs.root q = obsAt fs.root q :=
+  any_gitignore_run_changes_only_the_target fs c hd hn ps src tb srcNode fuel hwf hroot hsrc hsn hcop htb hne hplain hpar
+    hun1 hun2 hlen ls s hrun q hq
+
+/-- THE WHOLE PROGRAM MODEL, whatever its exit (accepted or rejected by validation, successful, clashing half-way): every place
+not at or below a target `DEST/basename(si)` is observed exactly as before; a rejected invocation leaves the file system
+untouched altogether (`Xcp.whole_invocation_rejected_or_started`) -/
+theorem whole_invocation_of_any_exit_changes_only_the_targets (fs : Fs) (o : Opts) (texts : GiTexts) (dest : RPath) (items : List CopySrc) (fuel : Nat)
+    (hd : o.cfg.dereference = false) (hn : o.cfg.noClobber = false) (hg : o.cfg.gitignore = false)
+    (hnt : o.cfg.noTargetDir = false) (hrec : o.cfg.recursive = true) (hglob : o.glob = false)
+    (hpaths : (o.targetDir = none ∧ o.paths = items.map (·.path) ++ [dest]) ∨
+      (o.targetDir = some dest ∧ o.paths = items.map (·.path)))
+    (hne : items ≠ [])
+    (hwf : FsEq fs fs)
+    (hdest : PlainTarget fs dest) (hdd : ∃ es, fs.root.getAt dest.names = some (.dir es))
+    (hfuel : fuel < walkFuel)
+    (hsrc : ∀ e ∈ items, PlainTarget fs e.path ∧ e.path.fileName = some e.base ∧
+      fs.root.getAt e.path.names = some e.node ∧ e.node.Copyable fuel ∧ e.path.names.length + walkFuel < 256)
+    (hnd : (items.map (·.base)).Nodup)
+    (hun : ∀ e ∈ items, ∀ e' ∈ items,
+      ¬ e.path.names <+: dest.names ++ [e'.base] ∧ ¬ dest.names ++ [e'.base] <+: e.path.names)
+    (hplain : ∀ e ∈ items, ∀ d, fs.root.getAt (dest.names ++ [e.base]) = some d → d.plainTree = true)
+    (hlen : dest.names.length + 1 + walkFuel < 256) :
+    ∀ q, (∀ e ∈ items, ¬ dest.names ++ [e.base] <+: q) →
+      obsAt (L1run fs o texts).fs.root q = obsAt fs.root q :=
+  whole_invocation_changes_only_the_targets fs o texts dest items fuel hd hn hg hnt hrec hglob hpaths hne hwf hdest hdd hfuel hsrc hnd hun hplain hlen
+
+/-- … and with a destination that is plain only where the source maps onto it (links and special files under other names, as
+an earlier copy leaves them): still, in every reachable state, only places at or below the target change -/
+theorem every_reachable_state_changes_only_the_target_links_elsewhere_allowed (fs : Fs) (c : Cfg) (hd : c.dereference = false) (hn : c.noClobber = false)
+    (src tb : RPath) (srcNode : Node) (fuel : Nat)
+    (hwf : FsEq fs fs) (hroot : fs.root.isDir = true)
+    (hsrc : PlainTarget fs src) (hsn : fs.root.getAt src.names = some srcNode)
+    (hcop : srcNode.Copyable fuel)
+    (htb : PlainTarget fs tb) (hne : tb.names ≠ [])
+    (hplain : ∀ d, fs.root.getAt tb.names = some d → d.plainWhereMapped srcNode = true)
+    (hpar : ∃ es, fs.root.getAt tb.names.dropLast = some (.dir es))
+    (hun1 : ¬ src.names <+: tb.names) (hun2 : ¬ tb.names <+: src.names)
+    (hlen : src.names.length + fuel < 200 ∧ tb.names.length + fuel < 200)
+    (ls : List L0.Label) (s : L0.St)
+    (hrun : L0.run c (L0.init fs (walkEntry fs c none src tb (fuel + 1) [] [])) ls = some s)
+    (q : List Name) (hq : ¬ tb.names <+: q) :
+    obsAt s.fs.root q = obsAt fs.root q :=
+  any_run_changes_only_the_target_mapped fs c hd hn src tb srcNode fuel hwf hroot hsrc hsn hcop htb hne hplain hpar hun1 hun2 hlen ls s hrun q hq
 
 end Xcp.C03
